@@ -5,7 +5,7 @@ CONSTANTS
   MaxUnits = 1
   MaxVar = 1
   UnitKinds <- ExhUnits
-  ConKinds <- ExhCons
+  ConKinds <- NestCons
   SpecKinds <- ExhSpec
   SimpleV <- Set1
   DeclV <- Set1
@@ -17,18 +17,18 @@ CONSTANTS
   EndForms <- Set02
   LabelStmts = FALSE
   Contains = TRUE
-  PKinds <- KCmt
-  MaxEdits = 1
+  PKinds <- KRenCmt
+  MaxEdits = 2
   InsSet <- InsSmall
-  MinEdits = 0
+  MinEdits = 2
   Randomised = FALSE
-  DumpMod = 16
+  DumpMod = 2
   NRepl = 17
   RichOnly = FALSE
-  NeedStruct = FALSE
+  NeedStruct = TRUE
   MaxRich <- Unlimited
-  NCmtCls = 8
-  NCppForms = 18
+  NCmtCls = 2
+  NCppForms = 2
   NGarb = 3
   DirectiveCls <- DirCls
 INVARIANT WellNested
